@@ -155,6 +155,28 @@ def random_jobs(rng, n, sizes, events=True):
     return jobs
 
 
+def world_jobs(rng, n):
+    """great-circle rasters spanning most of the globe with few targets on the rim: on the sphere the farthest
+    cell from a corner target is not the opposite corner, so any bound derived from the corners is too small"""
+    jobs = []
+    for _ in range(n):
+        H, W = rng.choice([(4, 6), (5, 7), (6, 8), (7, 5), (8, 8)])
+        xs = [-160 + (320 // (W - 1)) * c for c in range(W)]
+        ys = [80 - (160 // (H - 1)) * r for r in range(H)]
+        if rng.random() < 0.5:
+            ys = ys[::-1]
+        mask = [[0] * W for _ in range(H)]
+        for _t in range(rng.choice([1, 1, 2])):
+            r = rng.choice([0, H - 1, rng.randrange(H)])
+            c = rng.choice([0, W - 1, rng.randrange(W)])
+            mask[r][c] = 1
+        vals = [[(r * W + c + 1) * mask[r][c] for c in range(W)] for r in range(H)]
+        nt = sum(map(sum, mask))
+        jobs.append({"H": H, "W": W, "vals": vals, "xs": xs, "ys": ys, "metric": "T", "max": None, "bound2": -1,
+                     "maxn": -1, "targets": [], "events": True, "exact": 1 if nt == 1 else 0, "tag": "world"})
+    return jobs
+
+
 def handle(ctx, cases, verdicts, kind):
     for i, case in enumerate(cases):
         ctx.evaluations += 1
@@ -226,7 +248,7 @@ def run(ctx):
 
     # ---- T: seeded larger rasters with step traces
     n = ctx.pick(150, 3000)
-    jobs = random_jobs(rng, n, [(4, 5), (5, 5), (6, 4), (5, 7), (7, 6), (8, 8)])
+    jobs = random_jobs(rng, n, [(4, 5), (5, 5), (6, 4), (5, 7), (7, 6), (8, 8)]) + world_jobs(rng, ctx.pick(24, 300))
     cases = core.run_jobs("prox_worker", jobs, env={"NUMBA_DISABLE_JIT": "1"})
     v = ctx.judge("Proximity_Trace", [strip(c) for c in cases], name="random_traces", stateful=True,
                   workers=4, parallel=4)
